@@ -7,6 +7,130 @@ import (
 	"math/bits"
 )
 
+// md4Compress applies the RFC 1320 §3.4 round structure to one 64-byte block.
+func md4Compress(st *[4]uint32, blk []byte) {
+	A, B, C, D := st[0], st[1], st[2], st[3]
+	F := func(x, y, z uint32) uint32 { return (x & y) | (^x & z) }
+	G := func(x, y, z uint32) uint32 { return (x & y) | (x & z) | (y & z) }
+	H := func(x, y, z uint32) uint32 { return x ^ y ^ z }
+	var X [16]uint32
+	for j := 0; j < 16; j++ {
+		X[j] = binary.LittleEndian.Uint32(blk[4*j:])
+	}
+	AA, BB, CC, DD := A, B, C, D
+	// Round 1: [abcd k s]: a = (a + F(b,c,d) + X[k]) <<< s
+	r1s := [4]int{3, 7, 11, 19}
+	for i := 0; i < 16; i++ {
+		v := []*uint32{&A, &D, &C, &B}[i%4]
+		var b, c, d uint32
+		switch i % 4 {
+		case 0:
+			b, c, d = B, C, D
+		case 1:
+			b, c, d = A, B, C
+		case 2:
+			b, c, d = D, A, B
+		case 3:
+			b, c, d = C, D, A
+		}
+		*v = bits.RotateLeft32(*v+F(b, c, d)+X[i], r1s[i%4])
+	}
+	r2s := [4]int{3, 5, 9, 13}
+	r2k := [16]int{0, 4, 8, 12, 1, 5, 9, 13, 2, 6, 10, 14, 3, 7, 11, 15}
+	for i := 0; i < 16; i++ {
+		v := []*uint32{&A, &D, &C, &B}[i%4]
+		var b, c, d uint32
+		switch i % 4 {
+		case 0:
+			b, c, d = B, C, D
+		case 1:
+			b, c, d = A, B, C
+		case 2:
+			b, c, d = D, A, B
+		case 3:
+			b, c, d = C, D, A
+		}
+		*v = bits.RotateLeft32(*v+G(b, c, d)+X[r2k[i]]+0x5A827999, r2s[i%4])
+	}
+	r3s := [4]int{3, 9, 11, 15}
+	r3k := [16]int{0, 8, 4, 12, 2, 10, 6, 14, 1, 9, 5, 13, 3, 11, 7, 15}
+	for i := 0; i < 16; i++ {
+		v := []*uint32{&A, &D, &C, &B}[i%4]
+		var b, c, d uint32
+		switch i % 4 {
+		case 0:
+			b, c, d = B, C, D
+		case 1:
+			b, c, d = A, B, C
+		case 2:
+			b, c, d = D, A, B
+		case 3:
+			b, c, d = C, D, A
+		}
+		*v = bits.RotateLeft32(*v+H(b, c, d)+X[r3k[i]]+0x6ED9EBA1, r3s[i%4])
+	}
+	A += AA
+	B += BB
+	C += CC
+	D += DD
+	st[0], st[1], st[2], st[3] = A, B, C, D
+}
+
+// MD4Stream is the same algorithm fed in pieces; the message length is kept as a 64-bit bit
+// count as §3.2 demands.
+type MD4Stream struct {
+	st   [4]uint32
+	buf  []byte
+	bits uint64
+}
+
+func NewMD4Stream() *MD4Stream {
+	return &MD4Stream{st: [4]uint32{0x67452301, 0xefcdab89, 0x98badcfe, 0x10325476}}
+}
+
+func (m *MD4Stream) Write(p []byte) {
+	m.bits += uint64(len(p)) * 8
+	if len(m.buf) > 0 {
+		k := 64 - len(m.buf)
+		if k > len(p) {
+			k = len(p)
+		}
+		m.buf = append(m.buf, p[:k]...)
+		p = p[k:]
+		if len(m.buf) == 64 {
+			md4Compress(&m.st, m.buf)
+			m.buf = m.buf[:0]
+		}
+	}
+	for len(p) >= 64 {
+		md4Compress(&m.st, p[:64])
+		p = p[64:]
+	}
+	m.buf = append(m.buf, p...)
+}
+
+// Sum returns the digest of what was written so far without changing the stream.
+func (m *MD4Stream) Sum() [16]byte {
+	st := m.st
+	tail := append([]byte{}, m.buf...)
+	tail = append(tail, 0x80)
+	for len(tail)%64 != 56 {
+		tail = append(tail, 0)
+	}
+	var lb [8]byte
+	binary.LittleEndian.PutUint32(lb[0:], uint32(m.bits))     // low-order word first
+	binary.LittleEndian.PutUint32(lb[4:], uint32(m.bits>>32)) // then the high-order word
+	tail = append(tail, lb[:]...)
+	for off := 0; off < len(tail); off += 64 {
+		md4Compress(&st, tail[off:off+64])
+	}
+	var out [16]byte
+	for i, v := range st {
+		binary.LittleEndian.PutUint32(out[4*i:], v)
+	}
+	return out
+}
+
 // MD4 is a whole-message implementation transcribed from RFC 1320 §3.
 func MD4(msg []byte) [16]byte {
 	// step 1+2: padding
@@ -21,72 +145,11 @@ func MD4(msg []byte) [16]byte {
 	binary.LittleEndian.PutUint64(lb[:], uint64(n)*8)
 	padded = append(padded, lb[:]...)
 
-	A, B, C, D := uint32(0x67452301), uint32(0xefcdab89), uint32(0x98badcfe), uint32(0x10325476)
-	F := func(x, y, z uint32) uint32 { return (x & y) | (^x & z) }
-	G := func(x, y, z uint32) uint32 { return (x & y) | (x & z) | (y & z) }
-	H := func(x, y, z uint32) uint32 { return x ^ y ^ z }
-	var X [16]uint32
+	st := [4]uint32{0x67452301, 0xefcdab89, 0x98badcfe, 0x10325476}
 	for off := 0; off < len(padded); off += 64 {
-		for j := 0; j < 16; j++ {
-			X[j] = binary.LittleEndian.Uint32(padded[off+4*j:])
-		}
-		AA, BB, CC, DD := A, B, C, D
-		// Round 1: [abcd k s]: a = (a + F(b,c,d) + X[k]) <<< s
-		r1s := [4]int{3, 7, 11, 19}
-		for i := 0; i < 16; i++ {
-			v := []*uint32{&A, &D, &C, &B}[i%4]
-			var b, c, d uint32
-			switch i % 4 {
-			case 0:
-				b, c, d = B, C, D
-			case 1:
-				b, c, d = A, B, C
-			case 2:
-				b, c, d = D, A, B
-			case 3:
-				b, c, d = C, D, A
-			}
-			*v = bits.RotateLeft32(*v+F(b, c, d)+X[i], r1s[i%4])
-		}
-		r2s := [4]int{3, 5, 9, 13}
-		r2k := [16]int{0, 4, 8, 12, 1, 5, 9, 13, 2, 6, 10, 14, 3, 7, 11, 15}
-		for i := 0; i < 16; i++ {
-			v := []*uint32{&A, &D, &C, &B}[i%4]
-			var b, c, d uint32
-			switch i % 4 {
-			case 0:
-				b, c, d = B, C, D
-			case 1:
-				b, c, d = A, B, C
-			case 2:
-				b, c, d = D, A, B
-			case 3:
-				b, c, d = C, D, A
-			}
-			*v = bits.RotateLeft32(*v+G(b, c, d)+X[r2k[i]]+0x5A827999, r2s[i%4])
-		}
-		r3s := [4]int{3, 9, 11, 15}
-		r3k := [16]int{0, 8, 4, 12, 2, 10, 6, 14, 1, 9, 5, 13, 3, 11, 7, 15}
-		for i := 0; i < 16; i++ {
-			v := []*uint32{&A, &D, &C, &B}[i%4]
-			var b, c, d uint32
-			switch i % 4 {
-			case 0:
-				b, c, d = B, C, D
-			case 1:
-				b, c, d = A, B, C
-			case 2:
-				b, c, d = D, A, B
-			case 3:
-				b, c, d = C, D, A
-			}
-			*v = bits.RotateLeft32(*v+H(b, c, d)+X[r3k[i]]+0x6ED9EBA1, r3s[i%4])
-		}
-		A += AA
-		B += BB
-		C += CC
-		D += DD
+		md4Compress(&st, padded[off:off+64])
 	}
+	A, B, C, D := st[0], st[1], st[2], st[3]
 	var out [16]byte
 	binary.LittleEndian.PutUint32(out[0:], A)
 	binary.LittleEndian.PutUint32(out[4:], B)
